@@ -270,3 +270,143 @@ def by_type_totality(payload):
                 except Exception as e:
                     bad.append(f'{c.__name__},{p.__name__}.{f},{kw}: raised {e!r}')
     return {'evaluated': n, 'bad': bad[:20], 'n_bad': len(bad)}
+
+
+def decision_specs(prop='C09'):
+    """The parenthesisation decision of fst_put_one:_make_exprlike_fst (the statements from `pars = ...get_option('pars')`
+    to the end of the `if pars:` block, with the `need_pars` closure as written): every callee answer is an unknown
+    Boolean (forked), the effects are recorded.
+
+        R   precedence_require_parens(...) for the put node (for a Starred: for its value)
+        A   put_fst._is_atom(pars=False)
+        SP  the put source has grouping parentheses            TP  the target has them
+        E1  self._is_enclosed_in_parents(field)                E2  put_fst._is_enclosed_or_line(check_pars=adding)
+        PT  put node is an unparenthesised tuple               PZ  put node can take grouping parentheses
+
+    `enclosed` on exit := the source's own parentheses were kept, or _parenthesize_grouping / _delimit_node was called,
+    or deferred_par is set, or the target's parentheses stay around the new node (TP and not del_tgt_pars).
+    Obligations, for pars in {True, 'auto'} and every combination of answers:
+        required.precedence      R and not A                       =>  enclosed
+        required.line_structure  not E1 and not E2                 =>  enclosed
+        required.int_attribute   `3 .real`: int Constant as Attribute.value   =>  enclosed
+        needed_never_removed     _unparenthesize_grouping is called only with pars='auto' and when none of the above
+                                 requires parentheses
+        pars_false.hands_off     with pars=False nothing is added, removed or deferred and the target's stay"""
+    from pyvc.contract import Fragment
+    from pyvc.interp import Interp, IFunc, SObj, Env, ABSENT
+    from pyvc.sym import cur
+    from pyvc.logic import truth
+    import ast as _ast
+
+    def flag(name):
+        c = cur()
+        return truth(c.bool(c.fresh_name(name)))
+
+    def select(fnode):
+        start = end = None
+        for i, st in enumerate(fnode.body):
+            if isinstance(st, _ast.Assign) and _ast.unparse(st).startswith("pars = fst.FST.get_option('pars'"):
+                start = i
+            if isinstance(st, _ast.If) and _ast.unparse(st.test) == 'pars' and start is not None:
+                end = i
+                break
+        if start is None or end is None:
+            raise LookupError('cannot locate the parenthesisation decision of _make_exprlike_fst')
+        return fnode.body[start:end + 1]
+
+    def run(ctx, case, loc, pre, label):
+        stmts = select(loc.node)
+        kind, pars_opt = case['kind'], case['pars']
+        CLS = {n: SObj(n, {}) for n in ('Starred', 'Constant', 'Attribute', 'Tuple', 'Lambda', 'AnnAssign', 'BinOp',
+                                        'FormattedValue', 'Interpolation', 'Name')}
+        log = []
+        facts = {}
+
+        def fact(name):
+            if name not in facts:
+                facts[name] = flag(name)
+            return facts[name]
+        SP, TP = case['sp'], case['tp']
+        PT = kind == 'tuple'
+        put_cls = {'plain': 'BinOp', 'tuple': 'Tuple', 'starred': 'Starred', 'int_attr': 'Constant'}[kind]
+        star_child = None
+        put_ast = SObj('put_ast', {}, **{'__class__': CLS[put_cls]})
+        if kind == 'int_attr':
+            put_ast._set('value', 3, count=False)
+        put_fst = SObj('put_fst', {}, a=put_ast)
+        put_fst._set('_is_atom', lambda pars=True, **k: True if kind == 'int_attr' else fact('A'), count=False)
+        e2_calls = []
+
+        def e2(check_pars=True, **k):
+            e2_calls.append(check_pars)
+            return fact(f'E2[{check_pars}]')
+        put_fst._set('_is_enclosed_or_line', e2, count=False)
+        put_fst._set('pars', lambda *a, **k: SObj('pars', {}, n=1 if SP else 0), count=False)
+        put_fst._set('is_parenthesized_tuple', lambda: (False if PT else None), count=False)
+        put_fst._set('is_parenthesizable', lambda: fact('PZ'), count=False)
+        for m in ('_unparenthesize_grouping', '_delimit_node', '_parenthesize_grouping'):
+            put_fst._set(m, (lambda m=m: (lambda *a, **k: log.append(m)))(), count=False)
+        if kind == 'starred':
+            sc_f = SObj('star_child.f', {})
+            sc_f._set('pars', lambda *a, **k: SObj('pars', {}, n=1 if SP else 0), count=False)
+            star_child = SObj('star_child', {}, f=sc_f, **{'__class__': CLS['BinOp']})
+            put_ast._set('value', star_child, count=False)
+        tparent = SObj('tgt_parent', {}, a=SObj('tpa', {}, **{'__class__': CLS['Attribute' if kind == 'int_attr' else 'BinOp']}))
+        target = SObj('target', {}, is_FST=True, parent=tparent)
+        target._set('pars', lambda *a, **k: SObj('tpars', {}, n=1 if TP else 0), count=False)
+        self = SObj('self', {}, a=SObj('self_a', {}, **{'__class__': CLS['BinOp']}))
+        self._set('_is_enclosed_in_parents', lambda field=None: fact('E1'), count=False)
+
+        def prp(child, parent, field=None, idx=None, **kw):
+            log.append(('prec', child))
+            return fact('R')
+        FSTNS = SObj('FSTcls', {})
+        FSTNS._set('get_option', lambda n, o=None: pars_opt, count=False)
+        g = dict(CLS)
+        g.update({'fst': SObj('fst', {}, FST=FSTNS), 'precedence_require_parens': prp, 'int': int,
+                  'ASTS_LEAF_EXPR': frozenset(), 'isinstance': lambda o, t: (t is int and isinstance(o, int) and not isinstance(o, bool))})
+        g['getattr'] = lambda o, n, *d: ((d[0] if d else None) if (o is None or o is False or o._get(n) is ABSENT) else o._get(n))
+        it = Interp(g)
+        env = Env()
+        env.vars.update(self=self, put_fst=put_fst, put_ast=put_ast, target=target, field='value' if kind == 'int_attr' else 'left',
+                        idx=None, options={}, arglike=False, static=SObj('static', {}))
+        it.exec_block(stmts, env)
+        ctx.notes['outcome'] = 'return'
+        del_tgt = env.vars.get('del_tgt_pars')
+        deferred = env.vars.get('deferred_par')
+        unpar = '_unparenthesize_grouping' in log
+        added = '_delimit_node' in log or '_parenthesize_grouping' in log
+        enclosed = (SP and not unpar) or added or bool(deferred) or (TP and not del_tgt)
+        if not pars_opt:
+            ctx.prove(f'{pre}.pars_false.hands_off[{label}]', not unpar and not added and not deferred and not del_tgt)
+            return
+        adding = not SP
+        R = facts.get('R')
+        A = True if kind == 'int_attr' else facts.get('A')
+        E1, E2 = facts.get('E1'), facts.get(f'E2[{adding}]')
+        req_prec = (R is True and A is False) if kind in ('plain', 'tuple') else (kind == 'starred' and R is True and A is False)
+        req_line = E1 is False and E2 is False
+        req_int = kind == 'int_attr'
+        if R is not None and A is not None:
+            ctx.prove(f'{pre}.required.precedence[{label}]', (not req_prec) or enclosed,
+                      info=f'facts {facts} log {[x for x in log if isinstance(x, str)]} del_tgt_pars={del_tgt}')
+        ctx.prove(f'{pre}.line_test_ignores_own_pars_only_when_adding[{label}]', all(cp is adding for cp in e2_calls),
+                  info='_is_enclosed_or_line(check_pars=adding): parentheses the source already has count as enclosure only '
+                       'when the question is whether to ADD some')
+        if E1 is not None and E2 is not None:
+            ctx.prove(f'{pre}.required.line_structure[{label}]', (not req_line) or enclosed, info=f'facts {facts}')
+        if req_int:
+            ctx.prove(f'{pre}.required.int_attribute[{label}]', enclosed)
+        if unpar:
+            ctx.prove(f'{pre}.needed_never_removed[{label}]', pars_opt == 'auto' and SP and not req_prec and not req_line
+                      and not req_int, info=f'facts {facts}')
+        ctx.prove(f'{pre}.one_way_only[{label}]', not (unpar and added),
+                  info='parentheses are not removed and added in the same decision')
+
+    cases = [dict(kind=k, pars=p, sp=sp, tp=tp) for k in ('plain', 'tuple', 'starred', 'int_attr') for p in (True, 'auto', False)
+             for sp in (False, True) for tp in (False, True) if not (k == 'tuple' and sp)]
+    return [Fragment('fst_put_one:_make_exprlike_fst', prop, 'put.decision', cases, run, min_obligations=1,
+                     native=('b_prec', 'replay'),
+                     notes='statements from `pars = get_option(..)` through the `if pars:` block incl. the need_pars closure; '
+                           'callee answers forked; Lambda-in-f-string branch not exercised (put node kinds: operator '
+                           'expression, unparenthesised tuple, Starred, int constant under Attribute)')]
